@@ -42,11 +42,13 @@ def do_op(r, op, flags, kept=None):
         ts = [L.mtype(t) for t in op[1]]
         r.filter_in_place(ts[0] if len(ts) == 1 else set(ts))
     elif k == 'fs':
-        conv = (lambda x: None if x is None else Timestamp(x / 8.0)) if (len(op) > 4 and op[4]) else (lambda x: None if x is None else x / 8.0)
-        r.filter_in_place(slice(conv(op[1]), conv(op[2]), HINTS[op[3]]))
+        # op[4]: False / True (both floats / both Timestamps) or a two-letter string of 'f' / 't' per end
+        reps = op[4] if len(op) > 4 and isinstance(op[4], str) else ('tt' if (len(op) > 4 and op[4]) else 'ff')
+        r.filter_in_place(slice(L.endpoint(op[1], reps[0]), L.endpoint(op[2], reps[1]), HINTS[op[3]]))
     elif k == 'fr':
-        r.filter_in_place(TimeRange(start=None if op[1] is None else op[1] / 8.0, end=None if op[2] is None else op[2] / 8.0,
-                                    absolute=op[3], p1_t0=None if op[4] is None else Timestamp(op[4] / 8.0)))
+        # op[5], op[6]: representation of start / end ('f', 't', 'x'); op[3] may be None (inferred)
+        r.filter_in_place(L.make_range({'start': op[1], 'end': op[2], 'abs': op[3], 't0': op[4],
+                                        'rs': op[5] if len(op) > 5 else 'f', 're': op[6] if len(op) > 6 else 'f'}))
     elif k == 'fi':
         r.filter_in_place(slice(op[1], op[2], op[3]))
     elif k == 'u':
